@@ -6,6 +6,27 @@ props = [json.loads(l) for l in open(os.path.join(V, "properties.jsonl"))]
 ids = [p["id"] for p in props]
 
 CLAIMS = {
+ "C08": dict(cat="exploration", tech="TLC model check of spec/Framing.tla + TLC trace validation (spec/TraceFraming.tla) of recovery over injected tail damage, ground truth from an independent decoder",
+   text="Framing.tla transcribes the segment/recovery iterators over abstract tails and is checked for all tails of up to 3 items. Real databases are damaged (cut records, single flipped bits, zeroes, garbage, damaged record followed by a well-formed one, over-claiming headers; any segment) and recovered by the real code; TLC computes from the abstract description of each segment what must be replayed and where each file must be cut, and compares contents, Count, Has, Items and file sizes.",
+   note="Byte-level fidelity (CRC, length arithmetic) is observed, not modelled: the damage is concretised by the harness and labelled by construction; the pre-damage records are read by an independent decoder.", ref="4.4, 6 (C08), 8"),
+ "C14": dict(cat="exploration", tech="Layer-A Hold/Observe trace validation (TLC) of held slices re-read across later histories on all file systems",
+   text="Every slice returned by Get/GetAppend/Next is kept with its digest and re-read after later puts, deletes, compactions, remaps, restarts and Close (fault handler armed); buffers passed in are overwritten right after each call. TLC validates the Hold/Observe events and all later reads against Layer A.",
+   note="Memory aliasing is outside TLA+; the specification supplies histories and oracle only.", ref="6 (C14), 8"),
+ "C15": dict(cat="model_checking", tech="Layer-A trace validation (TLC) of strict recordings with directory listings after every Compact and steady-state resource rounds; Wal model (Sync never fails)",
+   text="In strict recordings any error of Sync/Compact/Backup/Close is a violation; after every successful Compact the directory listing is validated by TLC (compacted segments and side files gone, count equals the reported one, only legitimate files remain), including histories where compaction removes every segment; steady-state rounds on fs.OS/fs.OSMMap record file count, bytes, descriptors and mappings, which TLC bounds by the live data.",
+   note="Resource bounds are affine in the number of live segments / live bytes with constants stated in spec/TraceAbs.tla (TRound).", ref="6 (C15)"),
+ "C16": dict(cat="exploration", tech="Layer-A trace validation (TLC) of boundary-length programs incl. crash images",
+   text="Programs over boundary key and value lengths, over-long keys and values around the sector, buffer and segment-capacity boundaries (thorough: the 512 MiB limit) are run sequentially on all file systems and with crash enumeration on crashfs; TLC validates byte-exact round trips (digests), error-and-no-effect for too-large Puts and absent-key behaviour of over-long keys.",
+   note="Partly encode/decode fidelity: the model contributes the oracle, the lengths are chosen by the harness.", ref="6 (C16), 8"),
+ "C17": dict(cat="exploration", tech="differential runs on four file systems, each validated against Layer A, equality of responses and segment bytes checked by TLC (fscmp)",
+   text="The same programs (with pinned hash seed; growth, truncation by recovery, removal by compaction, restarts, torn tails) run on fs.Mem, fs.OS, fs.OSMMap and crashfs; TLC validates each recording against Layer A and requires the response digests and the segment-file bytes to be identical across file systems.",
+   note="Differential testing; the specification is the common oracle.", ref="6 (C17), 8"),
+ "C18": dict(cat="exploration", tech="golden corpus of the pinned version opened by the current code + independent decoder replay, both validated by TLC against Layer A",
+   text="Seven golden directories written by the pinned version are opened by the current code on fs.OS and fs.OSMMap (contents identical, recovery iff unclean, database usable afterwards); every segment file the current code writes in sequential recordings is decoded by an independent reader of the documented format and its replay must equal the Layer-A contents.",
+   note="The corpus is fixed; the decoder is hand-written from docs/design.md.", ref="6 (C18), 8"),
+ "C19": dict(cat="exploration", tech="TLC model check of spec/Framing.tla (AllocBounded) + TLC trace validation of measured allocation of the recovering Open over header classes",
+   text="Framing.tla bounds the iterator's allocation by the bytes present for every tail (the pinned allocate-what-is-claimed config is refuted). Garbage headers of all size classes (key 0..65535, value 0..2^31-1, both types, 0-5000 trailing bytes) are placed after the last valid record; the recovering Open of the real code is measured and TLC checks allocation <= 32 x bytes on disk + 1 MiB together with the C08 outcome.",
+   note="Allocation is runtime.MemStats.TotalAlloc measured in-process; constants calibrated on the repaired tree (0.3-0.43 MB).", ref="4.4, 6 (C19), 8"),
  "C13": dict(cat="model_checking", tech="TLC model check of spec/LockProto.tla (system-call interleavings) + TLC linearizability validation (spec/TraceLock.tla) of enumerated real schedules driven through yield hooks",
    text="LockProto.tla models stat/open/flock/verify/unlink/close and process death of 3 processes x 2 rounds exhaustively (AtMostOneHolder, NoLeak hold for the repaired protocol; the pinned protocol is refuted; MustRecover is refuted = known finding D5c). The real lock code is driven through enumerated interleavings of its system-call steps (2-3 openers with a closing or dying holder) on a real directory via the verif yield hooks, and every schedule's results are validated by TLC as a linearizable lock object. Database-level session chains (clean/unclean ends, competing Opens) are validated against Layer A.",
    note="Processes are goroutines (flock conflicts between open file descriptions within a process); only the unix lock code is exercised. Known finding D5c is listed in known_findings.json.", ref="4.3, 6 (C13)"),
@@ -43,7 +64,7 @@ CLAIMS = {
    text="Power-loss images from the return of every Close to the end of the next Open (all files relevant since no lock file remains) are reopened by the real code in both sync modes; TLC validates them against Layer A with the durable floor set to everything at ret(Close).",
    note="Same trusted base as C06.", ref="6 (C09)"),
 }
-NA_REASON = "check not built yet in this revision (the design in DESIGN.md section 6 stands); not claimed until its check runs"
+NA_REASON = "not claimed"
 
 hooks = subprocess.run(["git", "-C", "/repo", "log", "--format=%H %s"], capture_output=True, text=True).stdout.splitlines()
 hook_commits = [l.split()[0] for l in hooks if " verif:" in l]
